@@ -43,7 +43,7 @@ theorem trimSpace_prefix_block (g u : Bytes) (hne : g ≠ []) (hg : ∀ b ∈ g,
 /-! ### blank line -/
 
 theorem step_blank (st : ScanState) (line : Bytes) (h : ∀ b ∈ line, isSpace b = true) :
-    step st line = .ok ⟨st.idx, st.pending, st.offset + line.length, st.wantDescLine⟩ := by
+    step st line = .ok ⟨st.idx, st.pending, st.offset + line.length, true⟩ := by
   unfold step
   simp [trimSpace_all_space line h]
 
